@@ -1,7 +1,8 @@
 (* C14 — backend in-flight (Conns) and failure (Fails) accounting under concurrency:
    executable interleaving model.
-   Mirrors caskethttp/proxy/proxy.go (Proxy.ServeHTTP: select / AddInt64 +1 / forward /
-   deferred AddInt64 -1 / Fails +1 / timed Fails -1 goroutine; Down, Full, Available) and
+   Mirrors caskethttp/proxy/proxy.go (Proxy.ServeHTTP: select / acquireConn (load + compare-and-swap
+   +1 unless full) / forward / deferred AddInt64 -1 / Fails +1 / timed Fails -1 goroutine; Down,
+   Full, Available) and
    caskethttp/proxy/upstream.go (staticUpstream.Select shortcuts, the CheckDown closure of
    NewHost with max_fails, parsing of max_fails / max_conns) and policy.go (First, RoundRobin).
 
@@ -21,8 +22,10 @@ Inductive outcome :=
 (* program counter of one request inside Proxy.ServeHTTP *)
 Inductive pc :=
 | Idle                       (* at the top of the for loop, about to call upstream.Select *)
-| Selected (h : option nat)  (* Select returned, Conns not yet incremented: THE WINDOW *)
-| Forwarding (h : nat)       (* between AddInt64(&Conns,+1) and the deferred AddInt64(&Conns,-1) *)
+| Selected (h : option nat)  (* Select returned (or acquireConn found the host full: None), Conns not yet
+                                incremented: THE WINDOW *)
+| Forwarding (h : nat)       (* between the successful CompareAndSwap(&Conns, n, n+1) of acquireConn and the
+                                deferred AddInt64(&Conns,-1) *)
 | Failed (h : nat)           (* forward returned an error, Conns already decremented, Fails not yet incremented *)
 | Done (code : Z).
 
@@ -90,8 +93,11 @@ Definition for_host (h : nat) (e : nat * Z) : bool := Nat.eqb h (fst e).
 Inductive label :=
 | LSpawn                           (* a new request enters ServeHTTP *)
 | LSelect (t : nat)                (* upstream.Select(r) *)
-| LBegin (t : nat)                 (* atomic.AddInt64(&host.Conns, 1); enters proxy.ServeHTTP *)
-| LNoHost (t : nat) (again : bool) (* Select returned nil: keepRetrying decides *)
+| LBegin (t : nat)                 (* host.acquireConn(): the load that sees the host full (-> no-host path), or the
+                                      successful CompareAndSwapInt64(&host.Conns, n, n+1) with n below the cap, after
+                                      which the request enters proxy.ServeHTTP; a failed CAS changes nothing and is
+                                      retried, so it is not a step *)
+| LNoHost (t : nat) (again : bool) (* Select returned nil / acquireConn returned false: keepRetrying decides *)
 | LFinish (t : nat) (o : outcome)  (* forward returns/panics; deferred atomic.AddInt64(&host.Conns, -1) *)
 | LRecord (t : nat) (again : bool) (* atomic.AddInt32(&host.Fails, 1) + go timer; keepRetrying decides *)
 | LFire (k : nat)                  (* k-th sleeping goroutine wakes (its deadline has passed): Fails -1 *)
@@ -127,9 +133,13 @@ Definition step (c : config) (sel : selector) (s : state) (l : label) : option s
   | LBegin t =>
       match nth_error (threads s) t with
       | Some (Selected (Some h)) =>
-          Some {| conns := bump (conns s) h 1; fails := fails s; timers := timers s; fired := fired s;
-                  flog := flog s; now := now s; threads := set_nth (threads s) t (Forwarding h);
-                  robin := robin s |}
+          if full c s h
+          then Some {| conns := conns s; fails := fails s; timers := timers s; fired := fired s;
+                       flog := flog s; now := now s; threads := set_nth (threads s) t (Selected None);
+                       robin := robin s |}
+          else Some {| conns := bump (conns s) h 1; fails := fails s; timers := timers s; fired := fired s;
+                       flog := flog s; now := now s; threads := set_nth (threads s) t (Forwarding h);
+                       robin := robin s |}
       | _ => None
       end
   | LNoHost t again =>
@@ -191,48 +201,6 @@ Definition init (r : N) : state :=
 Definition reachable (c : config) (sel : selector) (s : state) : Prop :=
   exists r ls, run c sel (init r) ls = Some s.
 
-(* schedules in which the select/forward window is serialised: no Select while another request
-   sits between its Select and its increment (what a lock or a reserve-at-select fix enforces) *)
-Definition window_free (s : state) : bool := forallb (fun p => negb (in_window p)) (threads s).
-Definition step_ser (c : config) (sel : selector) (s : state) (l : label) : option state :=
-  match l with
-  | LSelect _ => if window_free s then step c sel s l else None
-  | _ => step c sel s l
-  end.
-Fixpoint run_ser (c : config) (sel : selector) (s : state) (ls : list label) : option state :=
-  match ls with
-  | [] => Some s
-  | l :: r => match step_ser c sel s l with Some s' => run_ser c sel s' r | None => None end
-  end.
-Definition reachable_ser (c : config) (sel : selector) (s : state) : Prop :=
-  exists r ls, run_ser c sel (init r) ls = Some s.
-
-(* NOT the code as written — the repair the refutation of the cap points to: the increment itself
-   re-checks the cap (n := AddInt64(&Conns, 1); if MaxConns > 0 && n > MaxConns { AddInt64(&Conns, -1);
-   treat as "no host" }, or a CAS loop), so a request that lost the race is not forwarded.
-   Every other step is unchanged. *)
-Definition step_res (c : config) (sel : selector) (s : state) (l : label) : option state :=
-  match l with
-  | LBegin t =>
-      match nth_error (threads s) t with
-      | Some (Selected (Some h)) =>
-          if full c s h
-          then Some {| conns := conns s; fails := fails s; timers := timers s; fired := fired s;
-                       flog := flog s; now := now s; threads := set_nth (threads s) t (Selected None);
-                       robin := robin s |}
-          else step c sel s l
-      | _ => None
-      end
-  | _ => step c sel s l
-  end.
-Fixpoint run_res (c : config) (sel : selector) (s : state) (ls : list label) : option state :=
-  match ls with
-  | [] => Some s
-  | l :: r => match step_res c sel s l with Some s' => run_res c sel s' r | None => None end
-  end.
-Definition reachable_res (c : config) (sel : selector) (s : state) : Prop :=
-  exists r ls, run_res c sel (init r) ls = Some s.
-
 Definition sel_sound (c : config) (sel : selector) : Prop :=
   forall s h r, sel s = (Some h, r) -> available c s h = true.
 
@@ -287,7 +255,8 @@ Definition sel_tape (tape : list (option nat)) : selector :=
    blocking point (or sleeps) *)
 Inductive hstep :=
 | HSelect (t : nat)                              (* run upstream.Select *)
-| HBegin (t : nat) (again : bool)                (* leave the window: increment and enter the transport, or the nil-host branch *)
+| HBegin (t : nat) (again : bool)                (* leave the window: acquireConn and enter the transport, or the no-host branch
+                                                    (nil host, or the host has become full) *)
 | HStream (t : nat)                              (* backend answers headers, body still streaming *)
 | HFinish (t : nat) (o : outcome) (again : bool) (* the round trip ends with o *)
 | HWait (d : Z).                                 (* d clock units pass; due expiry goroutines run *)
@@ -352,7 +321,16 @@ Definition hexec (c : config) (sel : selector) (s : state) (h : hstep) : option 
       match nth_error (threads s) t with
       | Some (Selected (Some _)) =>
           match step c sel s (LBegin t) with
-          | Some s' => Some (s', pc_ev (nth_error (threads s') t))
+          | Some s1 =>
+              match nth_error (threads s1) t with
+              | Some (Selected None) =>
+                  (* acquireConn found the host full: the same path as a nil host *)
+                  match step c sel s1 (LNoHost t again) with
+                  | Some s2 => Some (s2, pc_ev (nth_error (threads s2) t))
+                  | None => None
+                  end
+              | p => Some (s1, pc_ev p)
+              end
           | None => None
           end
       | Some (Selected None) =>
@@ -439,6 +417,7 @@ Fixpoint model_trace (pol : N) (c : config) (sel : selector) (s : state) (tr : l
    calls [step]. ---- *)
 Record sbook := {
   b_fwd : list (nat * nat);      (* request t is being forwarded to host h *)
+  b_sel : list (nat * nat);      (* request t holds host h handed out by Select and has not been counted yet *)
   b_log : list (nat * Z);        (* injected backend errors (host, time) while counting is enabled *)
   b_now : Z;
   b_prev : list hsnap            (* previous snapshot *)
@@ -454,21 +433,25 @@ Definition drop_t (t : nat) (l : list (nat * nat)) : list (nat * nat) :=
 
 Definition book_step (ft : Z) (b : sbook) (h : hstep) (e : ev) (sn : list hsnap) : sbook :=
   match h with
+  | HSelect t =>
+      {| b_fwd := b_fwd b;
+         b_sel := match e with EvSel (Some x) => (t, x) :: drop_t t (b_sel b) | _ => drop_t t (b_sel b) end;
+         b_log := b_log b; b_now := b_now b; b_prev := sn |}
   | HBegin t _ =>
       match e with
-      | EvFwd x => {| b_fwd := (t, x) :: b_fwd b; b_log := b_log b; b_now := b_now b; b_prev := sn |}
-      | _ => {| b_fwd := b_fwd b; b_log := b_log b; b_now := b_now b; b_prev := sn |}
+      | EvFwd x => {| b_fwd := (t, x) :: b_fwd b; b_sel := drop_t t (b_sel b); b_log := b_log b; b_now := b_now b; b_prev := sn |}
+      | _ => {| b_fwd := b_fwd b; b_sel := drop_t t (b_sel b); b_log := b_log b; b_now := b_now b; b_prev := sn |}
       end
   | HFinish t o _ =>
       match lookup_t t (b_fwd b) with
       | Some x =>
-          {| b_fwd := drop_t t (b_fwd b);
+          {| b_fwd := drop_t t (b_fwd b); b_sel := b_sel b;
              b_log := match o with OError => if 0 <? ft then (x, b_now b) :: b_log b else b_log b | _ => b_log b end;
              b_now := b_now b; b_prev := sn |}
-      | None => {| b_fwd := b_fwd b; b_log := b_log b; b_now := b_now b; b_prev := sn |}
+      | None => {| b_fwd := b_fwd b; b_sel := b_sel b; b_log := b_log b; b_now := b_now b; b_prev := sn |}
       end
-  | HWait d => {| b_fwd := b_fwd b; b_log := b_log b; b_now := b_now b + d; b_prev := sn |}
-  | _ => {| b_fwd := b_fwd b; b_log := b_log b; b_now := b_now b; b_prev := sn |}
+  | HWait d => {| b_fwd := b_fwd b; b_sel := b_sel b; b_log := b_log b; b_now := b_now b + d; b_prev := sn |}
+  | _ => {| b_fwd := b_fwd b; b_sel := b_sel b; b_log := b_log b; b_now := b_now b; b_prev := sn |}
   end.
 
 Definition book_unexpired (ft : Z) (b : sbook) (h : nat) : Z :=
@@ -500,6 +483,24 @@ Definition choice_spec (b : sbook) (e : ev) : bool :=
   | _ => true
   end.
 
+(* leaving the window: a request that holds a host is forwarded to that very host, unless the host
+   was full in the (stable) state before the step — only then may it take the no-host path; a
+   request that holds no host is not forwarded *)
+Definition begin_spec (b : sbook) (h : hstep) (e : ev) : bool :=
+  match h with
+  | HBegin t _ =>
+      match lookup_t t (b_sel b), e with
+      | Some x, EvFwd y => Nat.eqb x y
+      | Some x, _ => match nth_error (b_prev b) x with
+                     | Some (_, _, _, _, ofl) => ofl
+                     | None => false
+                     end
+      | None, EvFwd _ => false
+      | None, _ => true
+      end
+  | _ => true
+  end.
+
 Fixpoint spec_trace (mc mf ft : Z) (unh : list bool) (b : sbook) (tr : list (hstep * ev * list hsnap)) : bool :=
   match tr with
   | [] =>
@@ -508,13 +509,17 @@ Fixpoint spec_trace (mc mf ft : Z) (unh : list bool) (b : sbook) (tr : list (hst
                     | _ => true end
   | (h, e, sn) :: r =>
       let b' := book_step ft b h e sn in
-      (match h with HSelect _ => choice_spec b e | _ => true end) &&
+      (match h with HSelect _ => choice_spec b e | _ => true end) && begin_spec b h e &&
       snap_spec mc mf ft unh b' sn && spec_trace mc mf ft unh b' r
   end.
 
-(* ---- parsing of max_fails / max_conns (upstream.go parseBlock): strconv.Atoi then int32(n) ---- *)
+(* ---- parsing of max_fails (upstream.go parseBlock): strconv.ParseInt(s, 10, 32) — a range error
+   for a literal that does not fit int32 —, then "must be at least 1", then stored as int32(n) ---- *)
 Definition wrap_int32 (n : Z) : Z :=
   let m := n mod 4294967296 in if m <? 2147483648 then m else m - 4294967296.
+Definition fits_int32 (n : Z) : bool := (-2147483648 <=? n) && (n <? 2147483648).
+Definition parse_max_fails (n : Z) : option Z :=
+  if fits_int32 n then (if n <? 1 then None else Some (wrap_int32 n)) else None.
 
 Inductive case :=
 | CSched (hosts : nat) (mc mf ft : Z) (unh : list bool) (pol : N) (nthreads : nat)
@@ -545,13 +550,13 @@ Definition judge (c : case) : N :=
       let s0 := init_threads 0 nthreads in
       let sel := if (pol <? 2)%N then sel_of pol cfg else sel_tape (tape_of trace) in
       let agree := snap_agrees cfg s0 snap0 && model_trace pol cfg sel s0 trace in
-      let b0 := {| b_fwd := []; b_log := []; b_now := 0; b_prev := snap0 |} in
+      let b0 := {| b_fwd := []; b_sel := []; b_log := []; b_now := 0; b_prev := snap0 |} in
       let spec := (length snap0 =? hosts)%nat && snap_spec mc mf ft unh b0 snap0 &&
                   spec_trace mc mf ft unh b0 trace in
       verdict agree spec
   | CMaxFails n k accepted obs_down =>
-      let m_acc := 1 <=? n in
-      let m_down := wrap_int32 n <=? k in
+      let m_acc := match parse_max_fails n with Some _ => true | None => false end in
+      let m_down := match parse_max_fails n with Some m => m <=? k | None => false end in
       let agree := bool_eqb m_acc accepted && (negb accepted || bool_eqb m_down obs_down) in
       (* property: down exactly when at least max_fails failures are outstanding *)
       let spec := negb accepted || bool_eqb obs_down (n <=? k) in
@@ -562,10 +567,12 @@ Definition judge (c : case) : N :=
       let spec := negb accepted || bool_eqb obs_full ((0 <? n) && (n <=? k)) in
       verdict agree spec
   | CStress hosts mc nthreads obs all_answered =>
-      (* the model accepts: at most one forward per request at a time, counters zero at quiescence *)
+      (* the model accepts: at most one forward per request at a time and never more than the cap,
+         counters zero at quiescence *)
       let agree := (length obs =? hosts)%nat &&
                    forallb (fun x : Z * Z * Z * Z => let '(mx, mn, fc, ff) := x in
-                              (mx <=? Z.of_nat nthreads) && (fc =? 0) && (ff =? 0)) obs in
+                              (mx <=? Z.of_nat nthreads) && ((mc <=? 0) || (mx <=? mc)) &&
+                              (fc =? 0) && (ff =? 0)) obs in
       let spec := all_answered &&
                   forallb (fun x : Z * Z * Z * Z => let '(mx, mn, fc, ff) := x in
                              ((mc <=? 0) || (mx <=? mc)) && (1 <=? mn) && (fc =? 0) && (ff =? 0)) obs in
